@@ -219,7 +219,8 @@ class Ev:
         # ghost fields
         g = self.ghost_loc(x, name)
         if g is not None:
-            return self.load(g)
+            v = self.load(g)
+            return self.refined_ghost(x, name, v)
         if isinstance(x, Val) and types.kind(x.t) == 'ptr':
             loc = self.st.ptr_loc(x)
             if types.kind(loc.t) == 'struct':
@@ -241,6 +242,66 @@ class Ev:
                 v = V.field_val(types, v, fname)
             return v
         raise SpecError('cannot select %s from %r' % (name, x))
+
+    def refinements(self):
+        out = []
+        for pkg, lst in self.prog.cs.refines.items():
+            for r in lst:
+                out.append(r)
+        return out
+
+    def refine_types(self, r):
+        sub = Ev(self.cx, self.st, {}, r['pkg'], None, r['imports'])
+        return sub.typekey(r['type']), sub.typekey(r['iface'])
+
+    def refined_ghost(self, x, name, default):
+        """ghost field of an interface value: for implementations with a declared abstraction the
+        field is a function of the concrete value (evaluated in the current state)"""
+        if not isinstance(x, Val) or self.types.kind(x.t) != 'iface':
+            return default
+        res = default
+        for r in self.refinements():
+            if name not in r['ghosts']:
+                continue
+            ct, it = self.refine_types(r)
+            if self.types.under(it) != self.types.under(x.t) and it != x.t:
+                continue
+            conc = V.unbox(self.types, x, ct)
+            sub = Ev(self.cx, self.st, {r['self']: conc}, r['pkg'], self.old, r['imports'], None, self.quant)
+            val = sub.ev(r['ghosts'][name])
+            if isinstance(val, Val) and val.t == MATHINT and default.t != MATHINT:
+                val = scalar(default.t, val.term)
+            res = V.ite_val(x.lv[('t',)] == self.types.typeid(ct), Val(default.t, val.lv), res)
+        return res
+
+    def refine_spec_facts(self, sf, env, result):
+        """declared meaning of an uninterpreted spec function on implementations of an interface"""
+        if self.quant:
+            return
+        for r in self.refinements():
+            for qname, (params, body) in r['specs'].items():
+                nm = qname.rsplit('.', 1)[-1]
+                if nm != sf.name:
+                    continue
+                if '.' in qname:
+                    a = qname.rsplit('.', 1)[0]
+                    p = r['imports'].get(a) or self.prog.aliases.get(a) or a
+                    if p != sf.pkg:
+                        continue
+                elif r['pkg'] != sf.pkg:
+                    continue
+                first = env[sf.params[0][0]]
+                if not isinstance(first, Val) or self.types.kind(first.t) != 'iface':
+                    continue
+                ct, it = self.refine_types(r)
+                conc = V.unbox(self.types, first, ct)
+                e2 = {r['self']: conc}
+                for pn, (sn, st_) in zip(params[1:], sf.params[1:]):
+                    e2[pn] = env[sn]
+                sub = Ev(self.cx, self.st, e2, r['pkg'], self.old, r['imports'], None, False)
+                sub.nounfold = True
+                val = sub.ev(body)
+                self.st.assume(z3.Implies(first.lv[('t',)] == self.types.typeid(ct), result.term == val.term))
 
     def find_field(self, t, name):
         """field path (through embedded structs) -> ([(fname, ftype)...], type)"""
@@ -483,6 +544,10 @@ class Ev:
             return V.is_nil(self.types, b)
         if isinstance(b, NilV):
             return V.is_nil(self.types, a)
+        if a.t == '$key' or b.t == '$key':
+            ta = a.lv[()] if a.t == '$key' else V.key_term(self.types, a, None if self.quant else self.st)
+            tb = b.lv[()] if b.t == '$key' else V.key_term(self.types, b, None if self.quant else self.st)
+            return ta == tb
         if a.t == MATHINT or b.t == MATHINT:
             return self.as_int(a) == self.as_int(b)
         ka, kb = self.types.kind(a.t), self.types.kind(b.t)
@@ -575,7 +640,8 @@ class Ev:
             if types.under(types.elem(v.t)) == types.under(types.elem(t)):
                 return Val(t, v.lv, loc=None)
         if k == 'iface' and isinstance(v, Val):
-            return V.box(types, v, None if self.quant else self.st)
+            bx = V.box(types, v, None if self.quant else self.st)
+            return Val(t, bx.lv)
         raise SpecError('conversion %s(%s) unsupported' % (t, v.t))
 
     def call_spec(self, sf, args):
@@ -616,7 +682,10 @@ class Ev:
 
     def call_uf_spec(self, sf, env):
         """uninterpreted / recursive spec function: UF over the leaves of the arguments"""
-        return self.cx.recspecs.apply(self, sf, env)
+        r = self.cx.recspecs.apply(self, sf, env)
+        if sf.body is None and self.prog.cs.refines:
+            self.refine_spec_facts(sf, env, r)
+        return r
 
     # -- built-in spec forms
     def fn_old(self, args):
@@ -777,13 +846,16 @@ class Ev:
                 cs.append(z3.Select(rc, cur.term) == z3.Select(ro, old.term))
             return boolv(z3.And(cs))
         if k == 'slice':
+            # same header and the same backing row (stronger than element-wise equality of the
+            # visible part, quantifier-free)
             cs = [cur.lv[p] == old.lv[p] for p in cur.lv]
             et = types.elem(cur.t)
-            j = z3.Int('u@%d' % getattr(self, 'qdepth', 0))
-            a = self.st.load(self.st.elem_loc(cur, j), facts=False)
-            b = self.old.load(self.old.elem_loc(old, j), facts=False)
-            eq = z3.And([a.lv[p] == b.lv[p] for p in a.lv]) if a.lv else z3.BoolVal(True)
-            cs.append(z3.ForAll([j], z3.Implies(z3.And(j >= 0, j < cur.lv[('l',)]), eq)))
+            if cur.arr is not None or old.arr is not None:
+                raise SpecError('unchanged() of a slice of an embedded array')
+            for (lp, ls, role) in types.leaves(et):
+                kc, rc = self.st.region('elems', self.st.elems_tk(et), ('[]',) + lp, ('A', ls))
+                ko, ro = self.old.region('elems', self.st.elems_tk(et), ('[]',) + lp, ('A', ls))
+                cs.append(z3.Select(rc, cur.lv[('b',)]) == z3.Select(ro, old.lv[('b',)]))
             return boolv(z3.And(cs))
         return boolv(z3.And([cur.lv[p] == old.lv[p] for p in cur.lv]))
 
